@@ -5,7 +5,7 @@
 (* with its limb count n; B = 2^64.  PostN(f, i, o): i = inputs as logged  *)
 (* before the call, o = outputs as logged after it.                        *)
 (***************************************************************************)
-EXTENDS Naturals, Integers, Sequences, FiniteSets, BigZ, IOFormat, PrintfLayout, CxxSem, SemIO
+EXTENDS Naturals, Integers, Sequences, FiniteSets, BigZ, IOFormat, PrintfLayout, CxxSem, SemIO, CxxStream
 
 LOCAL W == 64
 LOCAL Bn(n) == ZPow2(W * n)
@@ -296,6 +296,27 @@ PostN(f, i, o) ==
      [] f = "cxx_get" -> /\ (o.fits_si # 0) = (ZLe("-8000000000000000", i.v) /\ ZLe(i.v, "7fffffffffffffff"))
                          /\ (o.fits_ui # 0) = (ZLe("0", i.v) /\ ZLe(i.v, "ffffffffffffffff"))
                          /\ (o.fits_si # 0 => o.si = i.v) /\ o.ui = ZLowBits(ZAbs(i.v), 64)
+        \* ---- C20: stream insertion / extraction (see CxxStream.tla for the quoted manual text and the reading of the C++ standard)
+     [] f = "cxx_ostream" ->       \* o.z: mpz_class, o.zz: two insertions in a row (the second sees width 0), o.l: the standard library on the equal long
+           /\ o.z \in MpzOstreamTexts(i.st, i.w, i.fill, i.v) /\ o.wz = 0                  \* "ios::width is reset to 0 after output"
+           /\ \E t \in MpzOstreamTexts(i.st, 0, i.fill, i.v) : o.zz = o.z \o t
+           /\ (i.havel = 1 /\ StdMeaning(i.st, i.v)) =>
+                 /\ o.l = OstreamLayout(i.st, i.w, i.fill, i.v) /\ o.wl = 0               \* the specification agrees with the platform's C++ library
+                 /\ (~ZeroHexShowbase(i.st, i.v) /\ ~OctInternalRow(i.st, i.w, i.v) => o.z = o.l)   \* and MPIR is byte-identical to it (outside the two stated classes)
+     [] f = "cxx_ostream_q" -> o.q \in MpqOstreamTexts(i.st, i.w, i.fill, i.n, i.d) /\ o.wq = 0
+     [] f = "cxx_ostream_f" -> MpfOstreamOK(i, o)
+     [] f = "cxx_istream" ->       \* o.pos: characters consumed, o.next: the character the next get() returns ("" at end of input), o.l*: the standard library reading a long
+           LET p == IParse(i.s, i.base, i.skipws) IN
+           IF p.open THEN TRUE
+           ELSE      (/\ (o.ok = 1) = p.ok /\ o.pos = p.n
+                      /\ (p.ok => o.v = p.v)
+                      /\ o.next = (IF p.n < Len(i.s) THEN SubSeq(i.s, p.n + 1, p.n + 1) ELSE "")
+                      /\ (IStdComparable(i.s, i.base, p) => o.lok = o.ok /\ o.lpos = o.pos /\ (p.ok => o.lv = p.v)))
+     [] f = "cxx_istream_q" ->
+           LET p == IParseQ(i.s, i.base, i.skipws) IN
+           IF p.open THEN TRUE
+           ELSE      (/\ (o.ok = 1) = p.ok /\ o.pos = p.n
+                      /\ (p.ok => o.n = p.num /\ o.d = p.den))
      [] f = "mpn_get_str" ->      \* digit values written through the 62-character alphabet by the harness; leading zeros permitted
            LET A62 == "0123456789ABCDEFGHIJKLMNOPQRSTUVWXYZabcdefghijklmnopqrstuvwxyz" IN
            /\ Len(o.s) = o.ret /\ o.ret >= 1
